@@ -213,4 +213,14 @@ Qed.
 Lemma tls_per_fiber f tr : reads_of f (run init tr) = reads_of f (run init (filter (mine f) tr)).
 Proof. apply (per_fiber f tr init init). repeat split. Qed.
 
+(* distinct thread-local variables get distinct slots when there is one counter *)
+Lemma slots_from_seq seen tys : slots_from true seen tys = seq (length seen) (length tys).
+Proof.
+  revert seen. induction tys as [|t r IH]; simpl; intros seen; [reflexivity|].
+  f_equal. rewrite IH. rewrite app_length. simpl. f_equal. lia.
+Qed.
+
+Lemma slots_distinct tys : NoDup (slots true tys).
+Proof. unfold slots. rewrite slots_from_seq. apply seq_NoDup. Qed.
+
 End TlP.
